@@ -1,0 +1,15 @@
+//go:build verif
+// +build verif
+
+/*
+SPDX-License-Identifier: Apache-2.0
+*/
+
+package batch
+
+// VerifProcessAvailable runs one processing step of the writer's main loop (what a monitor tick,
+// force=false, or a batch-timeout tick, force=true, would do) so that a verification harness, not
+// wall-clock tickers, chooses the schedule. Only compiled with the "verif" build tag.
+func (r *Writer) VerifProcessAvailable(force bool) uint {
+	return r.processAvailable(force)
+}
